@@ -236,6 +236,53 @@ def messages(tier, seed):
     return out
 
 
+def sources_check(oc):
+    """What a message exposes is what ITS document names, whichever way the document came in: as bytes in another
+    declared encoding, and as an S3 object - also when the object under that key has been replaced since the last read."""
+    import warnings
+    from . import impl, coll_family
+    from mosromgr.mostypes import MosFile
+    docs = [B.item_delete('caf\u00e9-1', ['\u00e9-a', '\u00e8-b']), B.story_move(['\u00d61', '\u00dc1']), B.ea('MOVE', {'storyID': 'Stra\u00dfe'}, [B.ids('storyID', ['\u00c5', 'A\u030a'])]),
+            B.story_insert('M\u00fcnchen', [B.story('Z\u00fcrich', [B.item('\u00fc1')])]), B.item_replace('S', 'i', [B.item('\u00f1')])]
+    for k, tree in enumerate(docs):
+        body = TJ.to_text(tree)
+        want = read_object(impl.load(body))
+        routes = {}
+        for enc, decl in (('iso-8859-1', '<?xml version="1.0" encoding="ISO-8859-1"?>'), ('utf-16', '<?xml version="1.0" encoding="UTF-16"?>'), ('utf-8', '')):
+            try:
+                raw = (decl + body).encode(enc)
+            except UnicodeEncodeError:
+                continue
+            coll_family.install_fake_s3(coll_family.FakeS3({'k/msg.mos.xml': raw}))
+            for name, mk in ((f'bytes {enc}', lambda raw=raw: MosFile.from_string(raw)), (f'bytearray {enc}', lambda raw=raw: MosFile.from_string(bytearray(raw))),
+                             (f's3 {enc}', lambda: MosFile.from_s3(bucket_name='b', mos_file_key='k/msg.mos.xml'))):
+                try:
+                    with warnings.catch_warnings():
+                        warnings.simplefilter('ignore')
+                        routes[name] = read_object(mk())
+                except Exception as e:  # noqa: BLE001
+                    routes[name] = {'crash': impl.err_name(e)}
+        # the same key again after the object was replaced by another message
+        other = TJ.to_text(docs[(k + 1) % len(docs)])
+        coll_family.install_fake_s3(coll_family.FakeS3({'k/msg.mos.xml': other.encode('utf-8')}))
+        try:
+            with warnings.catch_warnings():
+                warnings.simplefilter('ignore')
+                again = read_object(MosFile.from_s3(bucket_name='b', mos_file_key='k/msg.mos.xml'))
+        except Exception as e:  # noqa: BLE001
+            again = {'crash': impl.err_name(e)}
+        want_other = read_object(impl.load(other))
+        for name, got in list(routes.items()) + [('s3, object replaced under the same key', again)]:
+            exp = want_other if name.startswith('s3, object replaced') else want
+            oc.evaluations += 1
+            oc.in_domain += 1
+            oc.count('sources')
+            if got != exp:
+                oc.failing.append({'kind': 'elements-sources', 'text': body, 'label': f'{type(impl.load(body)).__name__} through {name}',
+                                   'spec': 'the exposed targets and sources are those the document names, whichever way it came in',
+                                   'impl': {k_: got.get(k_) for k_ in ('exposed', 'lines', 'crash')}, 'expected': {k_: exp.get(k_) for k_ in ('exposed', 'lines')}})
+
+
 def run_c20(tier, seed):
     from . import lean
     oc = Outcome('C20')
@@ -309,6 +356,7 @@ def run_c20(tier, seed):
                 oc.nontrivial.add(h)
                 if len(oc.samples) < 5 and len(oc.nontrivial) % 173 == 1:
                     oc.samples.append({'label': lbl, 'text': text[:700], 'exposed': o['exposed'], 'inspect': o['lines']})
+    sources_check(oc)
     oc.rule = ('every message of the G-pos scope (1..n sources, blank/unknown/absent targets), compact and pretty-printed, '
                'plus messages of random histories; non-trivial = schema-shaped message (distinct by text hash)')
     return oc
@@ -334,6 +382,16 @@ def replay(pid, fl):
             r['lines'] = {'ok': ''.join(l + '\n' for l in r['lines']['ok'])}
         bad = bad or 'ok' not in o['lines'] or any(x not in o['lines']['ok'] for x in r['mention'])
     if bad:
+        print(f'VIOLATION property={pid} replay=(this file): still fails on the current tree')
+        return 1
+    print(f'{pid}: the recorded input no longer fails on the current tree')
+    return 0
+
+
+def replay_sources(pid, fl):
+    oc = Outcome(pid)
+    sources_check(oc)
+    if oc.failing:
         print(f'VIOLATION property={pid} replay=(this file): still fails on the current tree')
         return 1
     print(f'{pid}: the recorded input no longer fails on the current tree')
